@@ -45,6 +45,21 @@ for n, d in (('f3_add_u64', 'add(Element&,const Element&,const uint64_t&)'), ('f
              ('f3_fromU64', 'fromU64'), ('f3_toU64', 'toU64'), ('f3_fromS32', 'fromS32')):
     U(n, d, flags=['--unwind', '4', '--unwinding-assertions'], loops='unwind 4 (constant trip count 3)')
 U('f3_mulScalar', 'mulScalar(Element&,Element&,std::string&) [product; the parse is GMP]', group='f3s', replace=R + ['c_fromString_v'])
+from vf import cify as _cify
+def filt_bi(repo_src, dst):
+    f = extract.Filter(repo_src, dst)
+    f.check_macros()
+    txt = _cify.cify(f, 'goldilocks_cubic_extension.hpp', 'batchInverse', 'Goldilocks3_batchInverse', [('inv', 'Goldilocks3_inv'), ('copy', 'Goldilocks3_copy')], {0: 'LOOP_FWD', 1: 'LOOP_BWD'}, in_class=True,
+                     extra_rules=[(r'Goldilocks3::Element', 'G3Element'), (r'Goldilocks3::(copy|mul)\(', r'Goldilocks3_\1(')])
+    if txt.count('Goldilocks3_mul(') != 3 or 'Goldilocks3_inv(' not in txt or txt.count('Goldilocks3_copy(') != 2:
+        raise extract.ExtractError('M2: batchInverse: the expected calls (3 mul, inv, 2 copy) were not found')
+    tie = '__CPROVER_same_object(g_aux, aux)' if re.search(r'\baux\[', txt) else '1'
+    f.files = {'gen_batchinv.c': '#define VF_AUX_TIE %s\n' % tie + txt}
+    return f
+GROUPS['bi'] = Group('bi', filt_bi, c=['props/C09/contracts_batch.c'], repo_cpp=[])
+UNITS.append(Unit('batchInverse', 'bi', 'Goldilocks3_batchInverse', harness='hl_batchInverse', light=True, loops='contract', timeout=600,
+                  checks=['--bounds-check', '--pointer-check', '--undefined-shift-check', '--signed-overflow-check', '--div-by-zero-check'],
+                  functions=['Goldilocks3::batchInverse (%s) [C-ified, two loop contracts, location monitor; all lengths 1..2^20, res == src or separate]' % H]))
 # counterexample search in real arithmetic: the same units with addmod/submod defined (not uninterpreted); used only to
 # obtain a replayable input after an obligation of the structural unit failed
 GROUPS['f3x'] = Group('f3x', filt(False), cxx_defines=['VF_GMP_MODEL'], **SRC)
@@ -71,14 +86,14 @@ EXPLANATION = 'Each scalar extension operation is checked against an exact expre
 MANIFEST_ENTRY = dict(
     category='proof',
     technique='CBMC code contracts over the scalar contracts (uninterpreted field product) + Lean ring lemmas for the Karatsuba / cofactor identities',
-    text='All scalar cubic-extension operations (add/sub/neg/mul/square, mixed forms with a base element or integer, div by base, inv, mulScalar, isOne, copies and conversions) under contract with aliasing patterns; batch inversion: see level_note.',
-    note='Irreducibility of x^3-x-1 and primality of p are assumed; batchInverse is covered by a bounded unit only (see evidence.bounded); GMP parse trusted.')
+    text='All scalar cubic-extension operations (add/sub/neg/mul/square, mixed forms with a base element or integer, div by base, inv, mulScalar, isOne, copies and conversions) under contract with aliasing patterns; batch inversion for every length (schedule contract + Lean).',
+    note='Irreducibility of x^3-x-1 and primality of p are assumed; batchInverse: location / schedule contract for all lengths (Lean lemma batch_inverse for the algebra); GMP parse trusted.')
 GROUPS['f3light'] = Group('f3light', filt(False), defines=['VF_UF_ADDSUB', 'VF_LIGHT'], cxx_defines=['VF_GMP_MODEL'], **SRC)
 for n, d in (('f3_inv', 'inv(Element&,Element&)'), ('f3_inv_ra', 'inv [result==a]'), ('f3_inv_ptr', 'inv(Element*,Element*)')):
     UNITS.append(Unit(n, 'f3light', n, harness='hl_' + n, light=True, functions=['Goldilocks3::%s (%s)' % (d, H)], timeout=600,
                       note='light mode: the function makes ~45 operator calls, >512 addressed objects under dfcc'))
 
-LEMMAS = ['cubic_mul', 'cubic_inv']
+LEMMAS = ['cubic_mul', 'cubic_inv', 'batch_inverse_step']
 def extra_checks(rn, tier, ginfos):
     from vf import lean
     import os, json
